@@ -306,3 +306,84 @@ func TestVerif_C14_MixedDigits(t *testing.T) {
 	}
 	rec.Sample("digits", map[string]interface{}{"s": "v*2^pos, v=1..255", "P": "[7]G", "g": "0 and n-1"})
 }
+
+
+// Histories on ONE point object: it is re-set in place between multiplications (SetBytes / Set / Add in place / Negate in place),
+// and fresh objects with equal coordinates are mixed in — results must only depend on the point's current value.
+func TestVerif_C14_PointObjectHistory(t *testing.T) {
+	rec := stats.Get("C14", "object-history")
+	rec.Rule("rapid history of 3..8 steps on one persistent *SM2Point A (and one persistent scalar buffer): each step changes A in place (SetBytes of another point, Set, A.Add(A,G), A.Double(A), A.Negate(A), or leaves it) and then calls ScalarMixedMult_Unsafe(g,A,s), ScalarMult(A,k) or the same on a FRESH object with A's coordinates; oracle sm2ref on A's current value. Non-trivial: a history in which A was mutated between two multiplications (every history); distinct by history.")
+	t.Cleanup(stats.FlushAll)
+	rapid.Check(t, func(t *rapid.T) {
+		r := gen.Rand(t, "seed")
+		cur, _ := c14Point(t, "P0")
+		A := c14FromRef(t, cur)
+		scal := make([]byte, 32)
+		steps := gen.Int(t, "steps", 3, 8)
+		var hist []byte
+		for i := 0; i < steps; i++ {
+			switch mut := gen.Pick(t, "mutate", "setbytes", "set", "add", "double", "negate", "keep"); mut {
+			case "setbytes":
+				cur, _ = c14Point(t, "P")
+				if _, err := A.SetBytes(sm2ref.Encode(cur)); err != nil {
+					t.Fatalf("HARNESS: %v", err)
+				}
+			case "set":
+				cur, _ = c14Point(t, "P")
+				A.Set(c14FromRef(t, cur))
+			case "add":
+				A.Add(A, NewSM2Generator())
+				cur = sm2ref.Add(cur, sm2ref.G)
+			case "double":
+				A.Double(A)
+				cur = sm2ref.Double(cur)
+			case "negate":
+				A.Negate(A)
+				cur = sm2ref.Neg(cur)
+			}
+			if cur.Inf {
+				cur = sm2ref.G
+				A.Set(NewSM2Generator())
+			}
+			copy(scal, gen.RandBytes(r, 32)) // the same backing array is reused for every scalar
+			if gen.Int(t, "smalls", 0, 3) == 0 {
+				for j := 0; j < 30; j++ {
+					scal[j] = 0
+				}
+			}
+			g := gen.RandBytes(r, 32)
+			obj := A
+			fresh := gen.Bool(t, "fresh")
+			if fresh {
+				obj = c14FromRef(t, cur)
+			}
+			which := gen.Pick(t, "call", "mixed", "mixed", "variable")
+			hist = append(hist, []byte(which)[0], byte(i))
+			var got *SM2Point
+			var err error
+			var want sm2ref.Point
+			if p := vt.Catch(func() {
+				if which == "mixed" {
+					got, err = ScalarMixedMult_Unsafe(g, obj, scal)
+					want = sm2ref.Add(sm2ref.MulBytes(g, sm2ref.G), sm2ref.MulBytes(scal, cur))
+				} else {
+					got, err = ScalarMult(obj, scal)
+					want = sm2ref.MulBytes(scal, cur)
+				}
+			}); p != nil {
+				vt.Fail(t, rec, "C14:history:panic", "step %d (%s) panicked: %v", i, which, p)
+				return
+			}
+			c14Compare(t, rec, "C14:history:"+which, which+" multiplication in a history on one point object", got, err, want,
+				fmt.Sprintf("step %d of %d, point object reused=%v, current point %x, scalar %x, g %x", i, steps, !fresh, sm2ref.Encode(cur), scal, g))
+			if !bytes.Equal(A.Bytes(), sm2ref.Encode(cur)) {
+				vt.Fail(t, rec, "C14:history:modifies-P", "the multiplication changed its point argument")
+				return
+			}
+		}
+		rec.Case(stats.Hash(hist, sm2ref.Encode(cur), scal), true, fmt.Sprintf("steps:%d", steps))
+		if rec.WantSample("history") {
+			rec.Sample("history", map[string]interface{}{"steps": steps, "last_point": stats.Hex(sm2ref.Encode(cur))})
+		}
+	})
+}
